@@ -126,7 +126,7 @@ CHECK = {
         "message-level round trip is itself partial",
         "extraction: ExtrOcamlBasic only; the three implementation runners (responses' raw octets), checks/c02.py plumbing",
     ],
-    "assumptions": ["zones hold RDATA that is valid for its type wherever the server copies it into a response (what zone loading validates)"],
+    "assumptions": ["zones hold RDATA that is valid for its type wherever the server copies it into a response, and no OPT/TSIG records (both are what zone loading enforces: Rdata::validate, OptNotAllowed/TsigNotAllowed)"],
 }
 
 MANIFEST = {
